@@ -100,27 +100,30 @@ func lastPc(out string) string {
 func models(tier string) []*modelRun {
 	ms := []*modelRun{
 		{name: "quick", workers: 6, what: "intended design, every step separate: one session (LOGIN, selected-state command, IDLE, LOGOUT; two commands) against a connector update, RemoveUser, Close, late dials"},
-		{name: "live", workers: 3, what: "liveness under weak fairness: CloseReturns, RemoveUserReturns, EveryCommandCompletes, NothingLeftEventually"},
+		{name: "live", workers: 3, what: "liveness under weak fairness: CloseReturns, RemoveUserReturns, EveryCommandCompletes, NothingLeftEventually (one authenticated session, one command)"},
 		{name: "ascode.accept", workers: 2, expect: "deadlock", what: "newConnCh as coded"},
 		{name: "ascode.queue", workers: 2, expect: "deadlock", what: "state.Close as coded (queue.Close)"},
 		{name: "ascode.idchg", workers: 2, expect: "OnlyOwner", what: "applyMessageIDChanged as coded"},
 		{name: "ascode.peek", workers: 2, expect: "OnlyOwner", what: "removeState as coded (other.HasMessage)"},
 		{name: "ascode.caps", workers: 2, expect: "LockOrder", what: "handleCapability as coded"},
-		{name: "bug.removeStateHoldsLock", workers: 3, expect: "deadlock", what: "seeded: removeState keeps statesLock over db.Write and state.Close"},
-		{name: "bug.removeStateHoldsLock.order", workers: 2, expect: "LockOrder", what: "same seed, lock hierarchy"},
+		{name: "ascode.ctx", workers: 2, expect: "deadlock", what: "Session.done as coded: Serve context cancelled, then Close"},
+		{name: "bug.removeStateHoldsLock.order", workers: 2, expect: "LockOrder", what: "seeded: removeState keeps statesLock over db.Write and state.Close (lock hierarchy)"},
 		{name: "bug.closeNoStatesWait", workers: 2, expect: "DbClosedMeansNoStates", what: "seeded: user.close forgets statesWG.Wait"},
 		{name: "bug.doneNoRelease", workers: 2, expect: "deadlock", what: "seeded: Session.done does not release the state"},
 		{name: "bug.idleNotStopped", workers: 2, expect: "deadlock", what: "seeded: IDLE sender not stopped"},
 	}
 	if tier == "thorough" {
 		ms = append(ms,
+			&modelRun{name: "bug.removeStateHoldsLock", workers: 4, expect: "deadlock", what: "seeded: removeState keeps statesLock over db.Write and state.Close (the deadlock itself)"},
+			&modelRun{name: "ctx", workers: 4, what: "intended design with a cancellable Serve context, every step separate"},
+			&modelRun{name: "live.ctx", workers: 3, what: "liveness with a cancellable Serve context"},
 			&modelRun{name: "fine2", workers: 6, what: "every step separate, one session, three commands of every class"},
 			&modelRun{name: "two.cmd", workers: 6, what: "two sessions of one user, a selected-state command each"},
 			&modelRun{name: "two.idle", workers: 6, what: "two sessions in IDLE, connector update"},
 			&modelRun{name: "two.login", workers: 6, what: "two clients dial and LOGIN against RemoveUser and Close"},
 			&modelRun{name: "two.users", workers: 6, what: "two users, RemoveUser(u1) against Close"},
 			&modelRun{name: "three", workers: 6, what: "three sessions, connector update, teardown"},
-			&modelRun{name: "live2", workers: 3, what: "liveness, two commands"},
+			&modelRun{name: "live2", workers: 3, what: "liveness with NoGoroutineLeft: one session from dial and LOGIN on, one command, connector update, RemoveUser, Close"},
 		)
 	}
 	return ms
@@ -192,7 +195,18 @@ type replayObj struct {
 	How      string    `json:"how"`
 }
 
-func leakClass(key string) string { return key }
+// cleanTLC drops the parser chatter from TLC output.
+func cleanTLC(out string) string {
+	var b strings.Builder
+	for _, ln := range strings.Split(out, "\n") {
+		if strings.HasPrefix(ln, "Parsing file") || strings.HasPrefix(ln, "Semantic processing") || strings.HasPrefix(ln, "Linting of") || strings.TrimSpace(ln) == "" {
+			continue
+		}
+		b.WriteString(ln)
+		b.WriteByte('\n')
+	}
+	return b.String()
+}
 
 // child runs the rounds of the plan in this process.
 func child(r *ev.Run, p *plan) {
@@ -252,14 +266,14 @@ func child(r *ev.Run, p *plan) {
 		}
 		r.Sample(map[string]interface{}{"scenario": sc.describe(), "completed_client_calls": out.Commands, "close_returned": out.Closed,
 			"gluon_goroutines_left": out.Leaked, "hook_events": len(out.Events)})
-		if out.Fatal {
-			r.Set("stopped_after_hang", true)
-			break
-		}
 		if hooks < 0 {
 			hooks = len(out.Events)
 		}
 		if len(out.Events) == 0 || validated >= p.Validate {
+			if out.Fatal {
+				r.Set("stopped_after_hang", true)
+				break
+			}
 			continue
 		}
 		t := translate(out.Events)
@@ -274,7 +288,7 @@ func child(r *ev.Run, p *plan) {
 			v := validate(t, 6*time.Minute, skip)
 			tlcStates += v.States
 			if v.Problem != "" {
-				r.Machinery("trace of round %d: %s\n%s", sc.Round, v.Problem, tail(v.Output, 3000))
+				r.Machinery("trace of round %d: %s\n%s", sc.Round, v.Problem, tail(cleanTLC(v.Output), 2500))
 				break
 			}
 			if v.Invariant != "" {
@@ -296,12 +310,16 @@ func child(r *ev.Run, p *plan) {
 				r.Add("traces_validated_against_impl", 1)
 			} else {
 				r.Machinery("trace of round %d is not a behaviour of GluonLocks: event %d of %d cannot be followed (spec gap until judged):\n%s\n%s",
-					sc.Round, v.At, len(t.Lines), around(t, v.At, 25, 3), tail(v.Output, 1500))
+					sc.Round, v.At, len(t.Lines), around(t, v.At, 25, 3), tail(cleanTLC(v.Output), 600))
 			}
 			break
 		}
+		if out.Fatal { // a watchdog fired: the recording (a prefix of the run) was still judged; the process is not reused
+			r.Set("stopped_after_hang", true)
+			break
+		}
 	}
-	if hooks == 0 {
+	if hooks == 0 && (p.Replay != nil || (len(p.Rounds) > 0 && p.Rounds[0] == 0)) {
 		r.Machinery("C19 hooks not present in /repo: no verifhook.Event call site fired, trace validation skipped (apply harness/drivers/c19/hooks.diff); the stress and watchdog part ran")
 	}
 	r.Add("trace_validation_states", tlcStates)
@@ -374,25 +392,49 @@ func raceStep(r *ev.Run) {
 		return
 	}
 	seen := map[string]bool{}
+	hookInduced := 0
 	for _, b := range blocks {
-		top := "?"
-		for _, ln := range strings.Split(b[1], "\n") {
-			t := strings.TrimSpace(ln)
-			if strings.HasPrefix(t, "github.com/ProtonMail/gluon") && !strings.HasPrefix(t, "github.com/ProtonMail/gluon/verif/") {
-				if i := strings.LastIndex(t, "("); i > 0 {
-					t = t[:i]
+		// the two conflicting accesses: first gluon frame of each
+		var tops []string
+		for _, part := range strings.Split(b[1], "\n\n") {
+			head := strings.TrimSpace(strings.SplitN(strings.TrimSpace(part), "\n", 2)[0])
+			if !(strings.HasPrefix(head, "Write at") || strings.HasPrefix(head, "Read at") || strings.HasPrefix(head, "Previous write at") || strings.HasPrefix(head, "Previous read at")) {
+				continue
+			}
+			for _, ln := range strings.Split(part, "\n") {
+				t := strings.TrimSpace(ln)
+				if strings.HasPrefix(t, "github.com/ProtonMail/gluon") && !strings.HasPrefix(t, "github.com/ProtonMail/gluon/verif/") {
+					if i := strings.LastIndex(t, "("); i > 0 {
+						t = t[:i]
+					}
+					tops = append(tops, strings.TrimPrefix(t, "github.com/ProtonMail/gluon/"))
+					break
 				}
-				top = strings.TrimPrefix(t, "github.com/ProtonMail/gluon")
-				break
 			}
 		}
-		if top == "?" || seen[top] {
+		if len(tops) == 0 {
+			continue
+		}
+		induced := false
+		for _, t := range tops {
+			if strings.HasSuffix(t, ".String") { // update.String() is evaluated for the verif hooks / debug log only
+				induced = true
+			}
+		}
+		if induced {
+			hookInduced++
+			continue
+		}
+		sort.Strings(tops)
+		top := strings.Join(tops, " <-> ")
+		if seen[top] {
 			continue
 		}
 		seen[top] = true
-		r.Violate("data-race"+top, "the race detector reports (outside what the specification decides; shown because it fails the run):\n"+tail(b[1], 5000),
+		r.Violate("data-race/"+top, "the race detector reports (outside what the specification decides; shown because it fails the run):\n"+tail(b[1], 5000),
 			replayObj{Seed: ev.Seed(), How: "go test -race -tags verif -run TestC19Race ./drivers/c19/ in /verif/harness"})
 	}
+	info["reports_on_string_formatting_for_hooks"] = hookInduced
 	keys := make([]string, 0, len(seen))
 	for k := range seen {
 		keys = append(keys, k)
@@ -433,9 +475,9 @@ func run(r *ev.Run, tier, replay string) {
 		spawn(r, &plan{Seed: rp.Replay.Seed, Tier: tier, Replay: rp.Replay.Scenario, Repeat: 8, Validate: 2})
 		return
 	}
-	rounds, validateN, par := 6, 3, 3
+	rounds, validateN, par := 6, 6, 3
 	if tier == "thorough" {
-		rounds, validateN, par = 40, 12, 3
+		rounds, validateN, par = 40, 20, 3
 	}
 	var wg sync.WaitGroup
 	modelsOK := false
@@ -451,7 +493,8 @@ func run(r *ev.Run, tier, replay string) {
 			b = append(b, k)
 		}
 	}
-	for _, rs := range [][]int{a, b} {
+	// one more child for the round that cancels the Serve context before Close (a hang there costs its watchdog only)
+	for _, rs := range [][]int{a, b, {9000}} {
 		wg.Add(1)
 		go func(rs []int) {
 			defer wg.Done()
